@@ -238,7 +238,12 @@ class Engine(
                     # that the Sort managed by this Select may still refer to.
                     if select.has_sort and not select.has_slice:
                         # Keep an unsliced Sort in the outer query, where it
-                        # still has an effect.
+                        # still has an effect - which is only possible if the
+                        # columns it needs are still there.
+                        if not select.sort.columns_required <= select.columns:
+                            raise RelationalAlgebraError(
+                                f"Applying {operation} to relation {select} will not preserve row order."
+                            )
                         subquery = select.reapply_skip(sort=None)
                         return Select.apply_skip(operation._finish_apply(subquery), sort=select.sort)
                     return Select.apply_skip(operation._finish_apply(select))
@@ -323,6 +328,10 @@ class Engine(
                     # in putting those upstream of this operation, so we also
                     # add a nested subquery here.  Any Sort stays in the outer
                     # query, where it still has an effect.
+                    if not select.sort.columns_required <= select.columns:
+                        raise RelationalAlgebraError(
+                            f"Applying {operation} to relation {select} will not preserve row order."
+                        )
                     subquery = select.reapply_skip(sort=None)
                     return Select.apply_skip(operation._finish_apply(subquery), sort=select.sort)
                 else:
